@@ -182,8 +182,9 @@ where
                 if self.method.exec(&edge) && !visited.contains(v.key()) {
                     visited.insert(v.key().clone());
                     queue.push(v.clone());
-                    result.push(edge);
                     self.postorder_forward(result, visited, queue);
+                    // a node is finished (and recorded) only after its subtree
+                    result.push(edge);
                 }
             }
         }
@@ -203,8 +204,9 @@ where
                 if self.method.exec(&edge) && !visited.contains(v.key()) {
                     visited.insert(v.key().clone());
                     queue.push(v.clone());
-                    result.push(edge);
                     self.postorder_backward(result, visited, queue);
+                    // a node is finished (and recorded) only after its subtree
+                    result.push(edge);
                 }
             }
         }
